@@ -12,14 +12,14 @@ RULE = ('cases = 1-5 back-to-back transactions between a client MemoryAccess/Dm1
         'bytes for exactly that request or accepts a write and keeps what respond() returns); object count x size = 1..255 bytes (every length '
         '1..255 in the sweeps; single-frame DM16 up to 7 bytes, RTS/CTS above), sizes 1/2/4/8, signed/unsigned, raw/converted, pointer over '
         '0..2^32-1 incl. boundaries, direct/spatial, seed/key off/on with random seeds, same and different pointers in consecutive transactions, in 30 % of the cases two requesters on different stacks taking turns on the same server, read '
-        'after write and write after read, windows 1..255, latencies (0,5 ms]; oracle = returned bytes/integers equal what the server application '
+        'after write and write after read, pauses between transactions 0..200 ms (with pause 0 the application thread is switched to at the very put() that hands over the result, inside the receive handler, with probability 0.5/1), windows 1..255, latencies (0,5 ms]; oracle = returned bytes/integers equal what the server application '
         'supplied, respond() on the server returns exactly the written bytes, proceed saw (command, address, pointer type, count) of the request, all '
         'four state attributes IDLE afterwards; non-trivial = >= 1 transaction judged; distinct = (kinds, sizes class, seed/key, raw)')
 ASSUMPTIONS = ['the server application knows the object size by convention (DM14 does not transmit it): it supplies count x size bytes',
                'left-over items in internal queues are recorded as a diagnostic; the verdict is on returned / handed-over data and the state attributes']
 MIN_OBS = {'transactions': {'quick': 5000, 'thorough': 100000}, 'reads_checked': {'quick': 3000, 'thorough': 60000}, 'writes_checked': {'quick': 1600, 'thorough': 32000},
            'multipacket': {'quick': 2000, 'thorough': 40000}, 'with_seedkey': {'quick': 1500, 'thorough': 30000}, 'converted_reads': {'quick': 1000, 'thorough': 20000},
-           'lengths_covered_max': 255}
+           'lengths_covered_max': 255, 'eager_switches': {'quick': 800, 'thorough': 16000}}
 
 PTRS = [0, 1, 0xFF, 0x100, 0xFFFF, 0x10000, 0x92000003, 0x7FFFFFFF, 0x80000000, 0xFFFFFFFE, 0xFFFFFFFF]
 
@@ -83,9 +83,14 @@ def run_case(case):
         op['via'] = via
         if two:
             op['client'] = rng.randrange(2)          # the two requesters take turns in random order
-    results = DW.run_ops(ops, gap=rng.choice([0.002, 0.02, 0.2]), timeout=2)
+    # in a third of the cases the application task continues without any pause, and the operating system may switch to it at the very moment the
+    # receive thread hands over the result (in the middle of the receive handler) -- the next request then races the rest of that handler
+    gap = rng.choice([0.002, 0.02, 0.2, 0, 0])
+    if gap == 0:
+        DW.sim.eager_wake = rng.choice([0.5, 1.0])              # (otherwise: the world's own draw, 0 in half of the cases)
+    results = DW.run_ops(ops, gap=gap, timeout=2)
     obs = dict(transactions=0, reads_checked=0, writes_checked=0, multipacket=0, with_seedkey=0, converted_reads=0, leftover_queue_items=0,
-               lengths_covered_max=0)
+               lengths_covered_max=0, eager_switches=DW.sim.eager_switches)
     if not DW.finished:
         viol.add('client_hung', 'the client application task never finished its %d operations (states %s)' % (len(ops), DW.states()), **tag)
     M.m_live(viol, DW.W, 'dm14')
